@@ -256,11 +256,13 @@ theorem bsub_of_prefix_drop (T tok : Text) (k p q : Nat) (h : tok <+: T.drop k) 
 
 /-- what a chunk delivered by the ReplaceSource says, with the table of announced files `F`: it is unmapped, or it names a file `T`
 of the table and the true line and column of a byte `q` of `T`, and its text is a piece `T[q..q')` of that file starting at that
-very byte — byte `j` of the piece being byte `q + j` of `T`, on the reported line at the reported column plus `j` — or a line of
+very byte — byte `j` of the piece being byte `q + j` of `T`, on the reported line at the reported column plus `j`, the whole piece
+lying inside one potential token `tok` of `T` (which starts at `k0`) — or a line of
 the content of one of the replacements `RS` -/
 def TrueAt (RS : List Repl) (F : SrcTbl) (t' : Option Text) (mm : Mapping) : Prop :=
   mm.orig = none ∨ ∃ name T q y, mm.orig = some y ∧ F y.src = some (name, some T) ∧ q < T.length ∧ adv startPos (T.take q) = ⟨y.line, y.col⟩
-    ∧ ((∃ q', q < q' ∧ q' ≤ T.length ∧ t' = some (bsub T q q') ∧ ∀ j, j < q' - q → adv startPos (T.take (q + j)) = ⟨y.line, y.col + j⟩) ∨ (∃ r ∈ RS, ∃ cl ∈ splitLines r.content, t' = some cl))
+    ∧ ((∃ q', q < q' ∧ q' ≤ T.length ∧ t' = some (bsub T q q') ∧ (∀ j, j < q' - q → adv startPos (T.take (q + j)) = ⟨y.line, y.col + j⟩)
+        ∧ ∃ tok k0 l0 c0, TokPos T tok l0 c0 k0 ∧ k0 ≤ q ∧ q' ≤ k0 + tok.length) ∨ (∃ r ∈ RS, ∃ cl ∈ splitLines r.content, t' = some cl))
 
 theorem rEvs_prov (RS : List Repl) :
     ∀ (evs : List Ev) (st : RSt) (S : SrcTbl), CT st S → ProvOK S evs →
@@ -269,7 +271,8 @@ theorem rEvs_prov (RS : List Repl) :
     (∀ r ∈ st.rest, r ∈ RS) →
     ∀ t' mm, Ev.chunk t' mm ∈ (rEvs st evs).2 →
       mm.orig = none ∨ ∃ S' name T q y, mm.orig = some y ∧ S' y.src = some (name, some T) ∧ q < T.length ∧ adv startPos (T.take q) = ⟨y.line, y.col⟩
-        ∧ ((∃ q', q < q' ∧ q' ≤ T.length ∧ t' = some (bsub T q q') ∧ ∀ j, j < q' - q → adv startPos (T.take (q + j)) = ⟨y.line, y.col + j⟩) ∨ (∃ r ∈ RS, ∃ cl ∈ splitLines r.content, t' = some cl))
+        ∧ ((∃ q', q < q' ∧ q' ≤ T.length ∧ t' = some (bsub T q q') ∧ (∀ j, j < q' - q → adv startPos (T.take (q + j)) = ⟨y.line, y.col + j⟩)
+        ∧ ∃ tok k0 l0 c0, TokPos T tok l0 c0 k0 ∧ k0 ≤ q ∧ q' ≤ k0 + tok.length) ∨ (∃ r ∈ RS, ∃ cl ∈ splitLines r.content, t' = some cl))
         ∧ ∃ pre post, evs = pre ++ post ∧ S' = tblS S pre := by
   intro evs
   induction evs with
@@ -293,7 +296,7 @@ theorem rEvs_prov (RS : List Repl) :
           obtain ⟨q1, q2⟩ := tokPos_advance T tok a.line a.col k p p3 hpl
           refine Or.inr ⟨S, name, T, k + p, y, y1, by rw [y2]; exact p1, q1, by rw [y3, y4]; exact q2, ?_, [], _, rfl, rfl⟩
           rcases hkind with ⟨q, hq1, hq2, hq3⟩ | hk
-          · refine Or.inl ⟨k + q, by omega, ?_, by rw [hq3, bsub_of_prefix_drop T tok k p q p3.pre hq2], ?_⟩
+          · refine Or.inl ⟨k + q, by omega, ?_, by rw [hq3, bsub_of_prefix_drop T tok k p q p3.pre hq2], ?_, tok, k, a.line, a.col, p3, by omega, by omega⟩
             · obtain ⟨r, hr⟩ := p3.pre
               have := congrArg List.length hr
               simp only [List.length_append, List.length_drop] at this
